@@ -14,7 +14,7 @@ Record case := mkCase {
   c_cfg : wcfg;
   c_keys : list bytes;        (* masking keys, in the order they appear on the wire (client only) *)
   c_infl : list (bytes * option bytes);   (* compress/flate on (compressed message ++ tail), computed by the driver's frame walker *)
-  c_ops : list (bool * wop);  (* operations, each with the EnableWriteCompression flag in force *)
+  c_ops : list xop;           (* operations (with the EnableWriteCompression flag in force) and writers left open *)
   o_wire : bytes;             (* observed: everything written to the net.Conn *)
   o_errs : list N;            (* observed per operation: 0 nil, 1 errInvalidControlFrame, 2 errBadWriteOpCode, 3 ErrCloseSent, 4 other *)
   o_read : list event         (* observed: what a real peer Conn made of the wire bytes *)
@@ -66,7 +66,7 @@ Fixpoint events_eqb (a b : list event) : bool :=
 
 (* model = implementation: the same bytes on the wire, the same result for every operation *)
 Definition corr (c : case) : bool :=
-  let '(wire, errs) := write_all_t (c_cfg c) (c_keys c) false (c_ops c) in
+  let '(wire, errs) := write_all_o (c_cfg c) (c_keys c) false None (c_ops c) in
   beqb wire (o_wire c) && nlist_eqb (map err_code errs) (o_errs c).
 
 Definition spec_close_ok (c : N) : bool :=
@@ -76,8 +76,9 @@ Definition spec_close_ok (c : N) : bool :=
    exactly the messages whose write returned nil, in order (this includes: frames are valid, control
    frames <= 125 bytes, mask bit as the direction demands) *)
 Definition oracle (c : case) : bool :=
-  let want := expected (close_at_end (ops_events (map snd (c_ops c)) (map (fun e => e =? 0) (o_errs c)))) in
+  let want := expected (close_at_end (xops_events [] (c_ops c) (map (fun e => e =? 0) (o_errs c)))) in
   events_eqb (expected (spec_read (strict spec_close_ok) (peer_cfg (c_cfg c)) (fun d => lookup_infl (c_infl c) (d ++ flate_tail)) (o_wire c))) want
-  && events_eqb (map norm_event (o_read c)) want.
+  && events_eqb (map norm_event (o_read c)) want
+  && errs_justified false (c_ops c) (o_errs c).
 
 Definition run (cs : list case) := failing corr oracle cs.
